@@ -77,8 +77,16 @@ func fieldKind(S []any, home string, f J) string {
 	case "scalar":
 		if !isNilV(t["val"]) {
 			base = "constant"
-		} else if len(jlist(t["cons"])) > 0 {
+		} else if cons := jlist(t["cons"]); len(cons) > 0 {
 			flags = append(flags, "constraints")
+			ops := map[string]bool{}
+			for _, c := range cons {
+				if ops[jstr(jmap(c)["op"])] {
+					flags = append(flags, "operator-repeated")
+					break
+				}
+				ops[jstr(jmap(c)["op"])] = true
+			}
 		}
 	case "ref":
 		r := resolveJ(S, t, 8)
@@ -111,6 +119,9 @@ func fieldKind(S []any, home string, f J) string {
 	}
 	if !isNilV(t["def"]) {
 		flags = append(flags, "default")
+		if d := jstr(jmap(t["def"])["s"]); d == "[]" || d == "{}" {
+			flags = append(flags, "empty-collection")
+		}
 	}
 	sort.Strings(flags)
 	if len(flags) > 0 {
